@@ -50,7 +50,9 @@ ENTRY h_double_aggregate() {
   double v1 = any_finite(), v2 = any_finite();
   VASSUME(v1 >= 0 && v2 >= 0);
   m::PointAttributes attrs;
-  agg.Aggregate(v1, attrs); agg.Aggregate(v2, attrs);
+  agg.Aggregate(v1, attrs);
+  double s1 = nostd::get<double>(nostd::get<m::HistogramPointData>(agg.ToPoint()).sum_);   // step-wise: one adder per obligation
+  agg.Aggregate(v2, attrs);
   auto p = nostd::get<m::HistogramPointData>(agg.ToPoint());
   VASSERT(p.count_ == 2 && p.counts_.size() == NB + 1, "double: count and shape");
   uint64_t total = 0; bool ok = true;
@@ -58,7 +60,7 @@ ENTRY h_double_aggregate() {
   for (size_t i = 0; i <= NB; i++) { uint64_t want = (k1 == i) + (k2 == i); ok = ok && p.counts_[i] == want; total += p.counts_[i]; }
   VASSERT(total == 2, "double: bucket counts add up to count");
   VASSERT(ok, "double: bucket i counts exactly the values with boundary[i-1] < v <= boundary[i]");
-  VASSERT(nostd::get<double>(p.sum_) == (0.0 + v1) + v2, "double: sum is the left-to-right floating sum of the values");
+  VASSERT(s1 == 0.0 + v1 && nostd::get<double>(p.sum_) == s1 + v2, "double: sum is the left-to-right floating sum of the values");
   VASSERT(nostd::get<double>(p.min_) == (v1 < v2 ? v1 : v2), "double: min is the smallest recorded value");
   VASSERT(nostd::get<double>(p.max_) == (v1 < v2 ? v2 : v1), "double: max is the largest recorded value");
 }
